@@ -92,6 +92,21 @@ func (c *Ctx) ShareFrom(o *Ctx) {
 	c.cache = o.cache
 }
 
+// ReloadWithOverlay discards the loaded program and every derived structure and adds the given
+// files to the overlay: the next Prog() call loads the tree again. Used once, before the rules
+// run, when renamed functions are analysed under their baseline names.
+func (c *Ctx) ReloadWithOverlay(files map[string][]byte) {
+	if c.Overlay == nil {
+		c.Overlay = map[string][]byte{}
+	}
+	for p, b := range files {
+		c.Overlay[p] = b
+	}
+	c.progOnce = sync.Once{}
+	c.prog, c.progErr = nil, nil
+	c.cache = map[string]any{}
+}
+
 // Cache memoises expensive derived structures per context.
 func (c *Ctx) Cache(key string, build func() any) any {
 	if v, ok := c.cache[key]; ok {
